@@ -2700,6 +2700,9 @@ pub enum LOp {
     /// read on handle h (0/1) from the k-th position (0 = start, k = after the k-th canonical entry) with size kind
     Read(u8, u8, u8),
     Reopen(u8),
+    /// LSEEK(SEEK_SET) on the directory handle h to the cookie of the k-th position: moves the descriptor under the
+    /// server's feet; a later READDIR names its offset explicitly and must not care
+    Seek(u8, u8),
 }
 
 impl<'a> SeqRun<'a> {
@@ -2732,6 +2735,11 @@ impl<'a> SeqRun<'a> {
                     LOp::Reopen(h) => {
                         dw.releasedir(&mut self.cl, hs[*h as usize]);
                         hs[*h as usize] = dw.opendir(&mut self.cl).unwrap_or(0);
+                    }
+                    LOp::Seek(h, k) => {
+                        let kk = (*k as usize).min(dw.canon.len());
+                        let off = if kk == 0 { 0 } else { dw.canon[kk - 1].1 };
+                        let _ = self.cl.lseek(&dw.w.subj, dw.node, hs[*h as usize], off, libc::SEEK_SET as u32);
                     }
                 }
                 if !dw.problems.is_empty() {
@@ -2892,6 +2900,30 @@ pub fn c16(args: &Args) -> Report {
                         run.c16_rec(cfg, n, plus, &mut seq, &alphabet, d.max(2));
                     }
                     idx += 1;
+                }
+            }
+        }
+    }
+    // an LSEEK on the directory handle between two reads: [read, seek, read] for every position and size kind
+    for cfg in cfgs.iter().filter(|c| !c.ext4 || thorough) {
+        for n in [3usize, 12] {
+            let positions: Vec<u8> = if n == 12 { vec![0, 4, 8, 9, 12] } else { (0..=(n as u8)).collect() };
+            let kinds: Vec<u8> = if n == 12 { vec![0, 4, 3] } else { vec![0, 1, 3] };
+            for plus in [false, true] {
+                for k1 in &positions {
+                    for s1 in &kinds {
+                        if run.rep.mine(idx) {
+                            for k2 in &positions {
+                                for k3 in &positions {
+                                    for s3 in &kinds {
+                                        let seq = [LOp::Read(0, *k1, *s1), LOp::Seek(0, *k2), LOp::Read(0, *k3, *s3)];
+                                        run.c16_small(cfg, n, plus, &seq);
+                                    }
+                                }
+                            }
+                        }
+                        idx += 1;
+                    }
                 }
             }
         }
